@@ -135,6 +135,12 @@ func (c14) Run(ctx *RunCtx) {
 			pendingBefore++
 		}
 		pendingCfg := len(d.Sess.PendingServerRequests())
+		// what had been published when the request was sent (a publish may arrive
+		// while the request is being served)
+		pubBefore := map[string]int{}
+		for u, v := range lastPublished {
+			pubBefore[u] = v
+		}
 		r := d.Call(method, params)
 		if r == nil {
 			if !d.Livelock && d.Deadlock == "" {
@@ -161,9 +167,9 @@ func (c14) Run(ctx *RunCtx) {
 		for _, m := range markerRe.FindAllStringSubmatch(got, -1) {
 			dn, _ := strconv.Atoi(m[1])
 			vn, _ := strconv.Atoi(m[2])
-			if dn == doc.No && vn < doc.Marker {
+			if dn == doc.No && vn != doc.Marker {
 				fail("no-older-version", "stale-"+strings.TrimPrefix(method, "textDocument/"),
-					fmt.Sprintf("%s on d%d (at v%d) answered with content of its version %d", method, doc.No, doc.Marker, vn), nil)
+					fmt.Sprintf("%s on d%d (at v%d) answered with content of its superseded version %d", method, doc.No, doc.Marker, vn), nil)
 				return
 			}
 		}
@@ -195,21 +201,35 @@ func (c14) Run(ctx *RunCtx) {
 				ctx.Stats.Inc("probe:answer-equals-cold-reference")
 			}
 			if !verdict {
-				// lagging: for each open document whose last published version is older
+				// lagging: the include tree of an open document may still be the one of
+				// an earlier version - the last one published, or a later one whose
+				// analysis has stored its tree without its publish having arrived yet
+				// (never one older than the last published)
+			lagLoop:
 				for _, od := range w.OpenDocs() {
-					lp, ok := lastPublished[od.URI]
-					if !ok || lp >= od.Marker || od.Versions[lp] == "" {
-						continue
+					from := 0
+					if lp, ok := pubBefore[od.URI]; ok {
+						for i, m := range od.History {
+							if m == lp {
+								from = i
+							}
+						}
 					}
-					lr := StartRef(ctx, spec(false, od, lp))
-					wl := lr.Ask(method, params)
-					lr.Close()
-					comparedLag++
-					tried = append(tried, fmt.Sprintf("lagging(d%d@v%d)", od.No, lp))
-					if got == wl {
-						verdict = true
-						ctx.Stats.Inc("probe:answer-equals-lagging-reference")
-						break
+					for i := len(od.History) - 2; i >= from && i >= len(od.History)-5; i-- {
+						lv := od.History[i]
+						if lv == od.Marker || od.Versions[lv] == "" {
+							continue
+						}
+						lr := StartRef(ctx, spec(false, od, lv))
+						wl := lr.Ask(method, params)
+						lr.Close()
+						comparedLag++
+						tried = append(tried, fmt.Sprintf("lagging(d%d@v%d)", od.No, lv))
+						if got == wl {
+							verdict = true
+							ctx.Stats.Inc("probe:answer-equals-lagging-reference")
+							break lagLoop
+						}
 					}
 				}
 			}
@@ -267,10 +287,19 @@ func (c14) Run(ctx *RunCtx) {
 				continue
 			}
 			sp := w.Save(doc)
-			if doc.Marker > 0 && c.Pct("ext-write-before-didSave", 25) {
+			if doc.MaxMark > 0 && c.Pct("ext-write-before-didSave", 25) {
 				// another program rewrites the file between the editor's write and
 				// its didSave: the open buffer still is what every answer is about
-				w.ExtWrite(doc, c.Choose("ext-version", doc.Marker))
+				var have []int
+				for v := 0; v <= doc.MaxMark; v++ {
+					if doc.Versions[v] != "" && v != doc.Marker {
+						have = append(have, v)
+					}
+				}
+				if len(have) == 0 {
+					have = []int{doc.Marker}
+				}
+				w.ExtWrite(doc, have[c.Choose("ext-version", len(have))])
 				ctx.Stats.Inc("fault:ext-write")
 				ctx.T("op%d another program rewrites d%d's file with its v%d", op, doc.No, doc.DiskMark)
 			}
